@@ -1059,6 +1059,12 @@ def range_eval(case: dict) -> _Collector:
             alg2 = _range_alg(ks, a2, b2)
             rejected("other_range", "R2", f"a proof of {value} in [{a}, {b}] presented for [{a2}, {b2}]",
                      lambda: _range_verify(alg2, public_blob, honest))
+
+            def unanswered2(alg2=alg2):
+                pub = alg2.get_attestation_class().unserialize(public_blob, "rng")
+                return alg2.certainty(b"\x01", alg2.create_certainty_aggregate(pub)), None, None
+            rejected("no_answers", "R2", f"a proof of {value} in [{a}, {b}] presented for [{a2}, {b2}] with NO challenge "
+                                         f"answered", unanswered2)
         # ---- altered responses -----------------------------------------------------------------------------
         delta = case.get("delta", 1) or 1
         for pos in range(4):
@@ -1113,6 +1119,13 @@ def range_eval(case: dict) -> _Collector:
                     return pack_pair(abs(x), abs(y)) + pack_pair(abs(u), abs(v))
                 rejected("cheating_prover", "R3", f"a proof built for {vout} outside [{a}, {b}] (variant {variant}, "
                                                   f"magnitudes sent)", lambda: _range_verify(alg, cheat_blob, answer))
+
+                # the empty subset of challenges: nothing answered yet (also what the verifier holds while it waits)
+                def unanswered(cheat_blob=cheat_blob):
+                    pub = alg.get_attestation_class().unserialize(cheat_blob, "rng")
+                    return alg.certainty(b"\x01", alg.create_certainty_aggregate(pub)), None, None
+                rejected("no_answers", "R3", f"a proof built for {vout} outside [{a}, {b}] with NO challenge answered",
+                         unanswered)
                 # straight at the check, where signed responses can be handed in
                 def direct(cheat=cheat, cheat_blob=cheat_blob):
                     pub = alg.get_attestation_class().unserialize(cheat_blob, "rng")
